@@ -314,6 +314,20 @@ func dependsOn(fact map[string]interface{}, id string) bool {
 	return false
 }
 
+// isScheduledRule reports whether the given fact is a rule with a
+// 'schedule' (which a cron service knows about via the add hook).
+func isScheduledRule(fact map[string]interface{}) bool {
+	if fact == nil {
+		return false
+	}
+	rule, ok := fact["rule"].(map[string]interface{})
+	if !ok {
+		return false
+	}
+	_, scheduled := rule["schedule"]
+	return scheduled
+}
+
 func Expire(ctx *Context, s State, id string, fact map[string]interface{}, now int64) (bool, error) {
 	expired, err := checkExpiration(ctx, fact, now)
 	if err != nil {
